@@ -4,10 +4,14 @@ use std::fs::File;
 use std::io::BufRead;
 use std::io::BufReader;
 use std::ops::Add;
+#[cfg(windows)]
 use std::ops::Index;
 use std::path::Path;
+#[cfg(windows)]
 use std::sync::LazyLock;
+#[cfg(windows)]
 use crate::util::error_exit;
+#[cfg(windows)]
 use regex::Captures;
 use regex::Error;
 use regex::Regex;
@@ -165,6 +169,7 @@ fn convert_hgignore_pattern(
     }
 }
 
+#[cfg(windows)]
 static HG_CONVERT_REPLACE_REGEX: LazyLock<Regex> = LazyLock::new(|| {
     Regex::new("(\\*\\*|\\?|\\.|\\*)").unwrap()
 });
@@ -172,29 +177,23 @@ static HG_CONVERT_REPLACE_REGEX: LazyLock<Regex> = LazyLock::new(|| {
 fn convert_hgignore_glob(glob: &str, file_path: &Path) -> Result<Regex, Error> {
     #[cfg(not(windows))]
     {
-        let mut pattern = HG_CONVERT_REPLACE_REGEX
-            .replace_all(&glob, |c: &Captures| {
-                match c.index(0) {
-                    "**" => ".*",
-                    "." => "\\.",
-                    "*" => "[^/]*",
-                    "?" => "[^/]+",
-                    "[" => "\\[",
-                    "]" => "\\]",
-                    "(" => "\\(",
-                    ")" => "\\)",
-                    "^" => "\\^",
-                    "$" => "\\$",
-                    _ => error_exit(".hgignore", "Error parsing pattern"),
+        // `**` is any run of characters, `*` a run within one path component, `?` one character
+        // of a component; every other character stands for itself
+        let mut pattern = String::new();
+        let mut chars = glob.chars().peekable();
+        while let Some(c) = chars.next() {
+            match c {
+                '*' if chars.peek() == Some(&'*') => {
+                    chars.next();
+                    pattern.push_str(".*");
                 }
-                .to_string()
-            })
-            .to_string();
+                '*' => pattern.push_str("[^/]*"),
+                '?' => pattern.push_str("[^/]"),
+                _ => pattern.push_str(&regex::escape(&c.to_string())),
+            }
+        }
 
-        pattern = file_path
-            .to_string_lossy()
-            .to_string()
-            .replace("\\", "\\\\")
+        pattern = regex::escape(&file_path.to_string_lossy())
             .add("/([^/]+/)*")
             .add(&pattern);
 
